@@ -241,7 +241,8 @@ def run_impl(case):
             import mystic.penalty as _mp
             kk = dict(k=kw["k"]) if "k" in kw else {}
             out["p_single"] = float(ms.generate_penalty(cond, ptype=_mp.linear_inequality, **kw)(list(x)))
-            out["p_single_ref"] = float(sum(_mp.linear_inequality(f, **kk)(lambda z: 0.0)(list(x)) for f in list(ineq) + list(eq)))
+            # linear_inequality at iteration 0: 2k * max(0, condition) per line (k = 100 unless given)
+            out["p_single_ref"] = float(sum(2.0 * kk.get("k", 100) * max(0.0, float(f(list(x)))) for f in list(ineq) + list(eq)))
         except Exception as e:
             out["p_single_error"] = "%s: %s" % (type(e).__name__, str(e)[:120])
         # the same conditions handed over in another order (equalities first; interleaved flat list): the penalty kind goes with the condition
